@@ -161,6 +161,44 @@ def run(tier):
                 L.Bf3File.write_bf3_format(s, {}, bytes(b2))
                 ev = L.rec_read(rec, s.getvalue(), key, True, False, wd, _cost=max(1, n // 8))
                 large_ok += 1 if (at is None and ev["kind"] == "ok") else 0
+        # directories with 255 .. 300 entries: genuine, and with the last entry MAC'd under the index reduced modulo 256
+        from .c14 import crafted_bf3
+        nbig = 0
+        for name, b in crafted_bf3(r, big=True):
+            if name.startswith("entries-"):
+                s = io.StringIO()
+                L.Bf3File.write_bf3_format(s, {}, b)
+                ev = L.rec_read(rec, s.getvalue(), L.ZERO_KEY, True, False, wd, _cost=300, label=name)
+                nbig += 1 if ev["kind"] == "ok" else 0
+        if nbig < 4 and not rep.violations:
+            raise MachineryError("non-vacuity: the genuine large directories were not accepted")
+        # a directory with 2^16 entries (thorough tier; ~4 MB): the genuine file, and the file whose last entry (index 65536) is
+        # MAC'd with the index reduced modulo 2^16 (= 0).  The specification judges the deciding entry (op bf3.bigdir)
+        if tier == "thorough" or os.environ.get("VERIF_C05_BIGDIR"):
+            from bec2format.bf3file import cmac as _cmac
+            key = L.gen_key(r)
+            n = 65536
+            dirlen = 4 + n * (1 + 45) + 1
+            for wrap in (False, True):
+                ents, pays, last = [], bytearray(), None
+                for j in range(1, n + 1):
+                    pay = bytes([j % 255 + 1])
+                    body = (5 + dirlen + len(pays)).to_bytes(4, "big") + (1).to_bytes(4, "big") + (1).to_bytes(4, "big") + _cmac(pay, key) + b"\x00"
+                    idx = (j % 65536) if (wrap and j == n) else j
+                    mac = _cmac(body, key, idx.to_bytes(16, "big"))
+                    ents.append(bytes([len(body) + 16]) + body + mac)
+                    pays += pay
+                    last = (body, mac)
+                d = b"".join(ents) + b"\x00"
+                binary = L.BF3_FILE_SIG + len(d).to_bytes(4, "big") + d + bytes(pays)
+                s = io.StringIO()
+                L.Bf3File.write_bf3_format(s, {}, binary)
+                try:
+                    g = L.Bf3File.read_file(io.StringIO(s.getvalue()), True, key)
+                    kind = "ok" if len(g.components) == n else "raise"
+                except Exception:                            # noqa: BLE001
+                    kind = "raise"
+                rec.add({"op": "bf3.bigdir", "key": B(key), "n": n, "body": B(last[0]), "mac": B(last[1]), "kind": kind, "wrapped": 1 if wrap else 0})
         can = dict([e for e in rec.events if e["kind"] == "raise"][0])
         can["kind"] = "ok"
         rec.add(can)
